@@ -175,6 +175,10 @@ def run(M, rec, tier, seed, k, n):
     rec.extra["path_shapes_exhaustive_up_to_length"] = maxlen
     path_shapes(M, rec, rng, maxlen, k, n)
     histories(M, rec, rng, 600 if tier == "quick" else 3000)
+    if k == 0:
+        from vf import workloads as W
+
+        W.repo_tests(rec, [PROP])
 
 
 def finish(M, rec, write=True):
